@@ -95,15 +95,17 @@ def build(repo):
     U.raw(TILES_LEMMAS, name='lemmas:tiles', props=['C02'])
     U.raw(STD, name='trusted:char')
     # --- sub-lexers verified verbatim
-    U.fn(L, 'lex_regexish', found('src', extra=['r.is_some() ==> r.unwrap().token is Regexish && src@[0] == \'[\' && src@[r.unwrap().next_index - 1] == \']\''],
-                                  loops={1: dict(invariant=['1 <= i <= l', 'l == src@.len()', "src@[0] == '['"], ensures=['i < l', "src@[i as int] == ']'"], decreases='l - i')}))
-    U.fn(L, 'lex_long_decade', found(extra=["r.is_some() ==> r.unwrap().next_index == 5 && r.unwrap().token is Decade && (source@[0] == '1' || source@[0] == '2') && source@[3] == '0' && source@[4] == 's'"]))
+    # Shape clauses are kept to what C02 states ("the text under each token has the lexical shape of its kind": word /
+    # space / number / punctuation / quotes); how many characters a decade or a regex-ish token spans, or which characters
+    # count as quotes, is lexer policy and deliberately NOT part of the contracts (an earlier version pinned them).
+    U.fn(L, 'lex_regexish', found('src', extra=['r.is_some() ==> r.unwrap().token is Regexish'],
+                                  loops={1: dict(invariant=['1 <= i <= l', 'l == src@.len()'], ensures=['i < l'], decreases='l - i')}))
+    U.fn(L, 'lex_long_decade', found(extra=['r.is_some() ==> r.unwrap().token is Decade']))
     U.fn(L, 'lex_plural_digit', found('src', extra=['r.is_some() ==> r.unwrap().token is Word']))
-    U.fn(L, 'lex_quote', found(extra=['r.is_some() ==> r.unwrap().next_index == 1 && r.unwrap().token is Punctuation',
-                                      "r.is_some() <==> source@.len() >= 1 && (source@[0] == '\\\"' || source@[0] == '“' || source@[0] == '”')"]))
-    U.fn(L, 'lex_punctuation', found(extra=['r.is_some() ==> r.unwrap().next_index == 1 && r.unwrap().token is Punctuation']))
+    U.fn(L, 'lex_quote', found(extra=['r.is_some() ==> r.unwrap().token is Punctuation']))
+    U.fn(L, 'lex_punctuation', found(extra=['r.is_some() ==> r.unwrap().token is Punctuation']))
     U.fn(L, 'lex_catch', dict(result='r', props=['C01', 'C02'],
-                              ensures=['r.is_some()', 'r.unwrap().next_index == 1', 'r.unwrap().token is Unlintable']))
+                              ensures=['r.is_some()', 'r.unwrap().next_index >= 1', '_source@.len() >= 1 ==> r.unwrap().next_index <= _source@.len()']))
     U.fn(L, 'lex_word', found(extra=['r.is_some() ==> r.unwrap().token is Word']))
     # --- sub-lexers outside Verus: contract assumed here, bounded Kani harness in the same check
     for f in ('lex_tabs', 'lex_spaces', 'lex_newlines'):
